@@ -303,6 +303,14 @@ def build_direct(spec, f, history=True):
         else:
             S.fired('shared_real_medium')
         media = _SHARED_MEDIA['real']
+    elif spec.get('ground') == 'shared_real2':
+        # ... a layered ground (two media, interface at 20 m, second medium
+        # 1 m lower) shared in the same way
+        if 'real2' not in _SHARED_MEDIA:
+            _SHARED_MEDIA['real2'] = [mm.Medium(13, 0.005, coord=20), mm.Medium(80, 4, height=-1)]
+        else:
+            S.fired('shared_real_medium')
+        media = _SHARED_MEDIA['real2']
     elif spec.get('ground') == 'ideal':
         media = [mm.Medium(0, 0)]
     def attempt(kind, wi, model):
@@ -620,6 +628,19 @@ class ApiRuntime:
         self.nearargs = {}       # caller-owned near-field argument containers
         self.seen_points = {}
 
+    def in_thread(self, fn):
+        """Field requests of a task with `thread_fields` are issued from one
+        worker thread and awaited (a GUI or a server that keeps its main
+        thread free): strictly sequential, but not the thread that assigns
+        the frequency.  Which thread asks is not part of the request."""
+        if not self.task.get('thread_fields'):
+            return fn()
+        if getattr(self, '_pool', None) is None:
+            from concurrent.futures import ThreadPoolExecutor
+            self._pool = ThreadPoolExecutor(max_workers=1)
+        S.fired('field_request_from_worker_thread')
+        return self._pool.submit(fn).result()
+
     # -- results handed out earlier must stay what they were ---------------
     def _snap(self, obj):
         a = np.array(obj)
@@ -702,6 +723,19 @@ class ApiRuntime:
             return False, None, {'dead': self.dead}
         fault, op = op_fault(op)
         kind = op[0]
+        if kind == 'DROP':
+            # the caller lets go of this model (end of a function, a loop
+            # variable re-bound) and the cyclic collector runs: the lifetime
+            # of one model must not matter to the others of the interpreter
+            import gc
+            self.m = None
+            self.held = []
+            self.angles = {}
+            self.nearargs = {}
+            gc.collect()
+            S.fired('model_dropped_and_collected')
+            self.dead = ('DROP', 'dropped')
+            return True, None, {'premature': True}
         m, st, t = self.m, self.st, self.task
         if kind == 'REPORT_EARLY':
             # a report asked for at a moment when not everything it prints has
@@ -801,8 +835,9 @@ class ApiRuntime:
                     S.fired('field_order')
                     info['probe'] = 'near_then_far'
                 var = op[2] if len(op) > 2 else ''
-                do_far(m, t['fars'][op[1]], angles=self.angles if ('r' in var or 'm' in var) else None,
-                       positional='p' in var, mutate='m' in var)
+                self.in_thread(lambda: do_far(m, t['fars'][op[1]],
+                                              angles=self.angles if ('r' in var or 'm' in var) else None,
+                                              positional='p' in var, mutate='m' in var))
                 st.apply(op)
             elif kind == 'NEAR':
                 if st.near is not None and st.near != op[1]:
@@ -813,8 +848,8 @@ class ApiRuntime:
                     S.fired('field_order')
                     info['probe'] = 'far_then_near'
                 var = op[2] if len(op) > 2 else ''
-                do_near(m, t['nears'][op[1]], keep=self.nearargs if 'r' in var else None,
-                        as_array='a' in var)
+                self.in_thread(lambda: do_near(m, t['nears'][op[1]], keep=self.nearargs if 'r' in var else None,
+                                               as_array='a' in var))
                 st.apply(op)
             elif kind == 'OBS_NUM':
                 return True, sections_num(m, st), info
